@@ -312,7 +312,7 @@ def r04_5(ctx: Ctx):
                       f'the item\'s value list/holder is a process-wide singleton: '
                       f'{[b.describe() for b in bad[:2]]}: values of different trials overwrite each other',
                       key=f'{rid}::{o.site.split(":")[0]}::shared-holder::{bad[0].site if bad else ""}')
-    ctx.floor(rid, 'SearchDataItem allocation sites', n, 4)
+    ctx.floor(rid, 'SearchDataItem allocation sites', n, 2)
 
 
 TRIAL_FIELDS = {'point', 'floatVariables', 'discreteVariables', 'value', 'functionValues',
